@@ -55,11 +55,14 @@ Skip ==
   /\ pc' = "skipped"
   /\ UNCHANGED <<file, tmp, reported, ow, pre, n, w, run>>
 
-\* the output is opened: the documented protocol opens a temporary, the
-\* deviation opens (truncates) the target itself.  onTarget says which.
+\* the output is opened.  In the documented protocol nothing the run writes
+\* is visible under the target's name before the close (`tmp` stands for
+\* wherever the chunks are kept meanwhile); which path the implementation
+\* opens (onTarget) is not prescribed -- what the directory shows afterwards
+\* is (Observe).  The deviation opens, and thereby truncates, the target itself.
 Open(onTarget) ==
   /\ pc = "started" /\ MayWrite
-  /\ onTarget = Truncates
+  /\ Truncates => onTarget
   /\ pc' = "open"
   /\ IF Truncates THEN file' = "partial" /\ tmp' = tmp
                   ELSE file' = file /\ tmp' = "partial"
